@@ -8,6 +8,7 @@
 
 #include <cassert> // for assert
 #include <stdexcept> // for std::logic_error
+#include <utility> // for std::exchange
 
 namespace sockpuppet {
 
@@ -46,12 +47,18 @@ int Read(BIO *b, char *data, int size)
 
   BIO_clear_retry_flags(b);
 
-  auto received = sock->BioRead(data, static_cast<size_t>(size));
-  if(!received) {
-    BIO_set_retry_read(b);
+  try {
+    auto received = sock->BioRead(data, static_cast<size_t>(size));
+    if(!received) {
+      BIO_set_retry_read(b);
+    }
+    return static_cast<int>(received);
+  } catch(...) {
+    // must not unwind through the C frames of OpenSSL (leaves the session in a corrupt state)
+    // report failure here and rethrow after OpenSSL has returned
+    sock->pendingError = std::current_exception();
+    return -1;
   }
-
-  return static_cast<int>(received);
 }
 
 int Write(BIO *b, char const *data, int size)
@@ -60,12 +67,17 @@ int Write(BIO *b, char const *data, int size)
 
   BIO_clear_retry_flags(b);
 
-  auto sent = sock->BioWrite(data, static_cast<size_t>(size));
-  if(sent != static_cast<size_t>(size)) {
-    BIO_set_retry_write(b);
+  try {
+    auto sent = sock->BioWrite(data, static_cast<size_t>(size));
+    if(sent != static_cast<size_t>(size)) {
+      BIO_set_retry_write(b);
+    }
+    return static_cast<int>(sent);
+  } catch(...) {
+    // see above
+    sock->pendingError = std::current_exception();
+    return -1;
   }
-
-  return static_cast<int>(sent);
 }
 
 long Ctrl(BIO *, int cmd, long, void *)
@@ -456,6 +468,11 @@ size_t SocketTlsImpl::BioWrite(char const *data, size_t size)
 bool SocketTlsImpl::HandleResult(int res)
 {
   lastError = SSL_get_error(ssl.get(), res);
+  if(pendingError) {
+    // the socket failed inside a BIO callback; the session is unusable from now on
+    lastError = SSL_ERROR_SYSCALL;
+    std::rethrow_exception(std::exchange(pendingError, nullptr));
+  }
   return HandleLastError();
 }
 
